@@ -73,13 +73,14 @@ type mon struct {
 	// gate
 	hold        bool
 	holdGen     int
-	pending     int
+	held        map[string]bool // loop -> its sentinel inspect is held in the current hold
 	releaseFail map[int]bool
 	refusing    bool
 	refused     map[string]int
 
 	outageState int // 0 not started, 1 running, 2 over
 	s0Taken     bool
+	s0Seq       int
 	outagePos   int
 	quiesceOK   bool
 
@@ -97,7 +98,7 @@ type mon struct {
 }
 
 func newMon(p *popSpec, run *evid.Run) *mon {
-	m := &mon{p: p, run: run, ctr: map[string]*ctrState{}, byPod: map[string]*ctrState{}, releaseFail: map[int]bool{},
+	m := &mon{p: p, run: run, ctr: map[string]*ctrState{}, byPod: map[string]*ctrState{}, releaseFail: map[int]bool{}, held: map[string]bool{},
 		refused: map[string]int{}, prevSent: map[string]int{}, dirty: map[string]bool{}, cleanRounds: map[string]int{},
 		cleanAfterOutage: map[string]int{}, lastActivity: time.Now(), viol: map[string]bool{},
 		lastRound: map[string]time.Time{"ip": time.Now(), "gc": time.Now()}}
@@ -192,7 +193,7 @@ func loopOfSentinel(id string) string {
 func (m *mon) beginHold() {
 	m.hold = true
 	m.holdGen++
-	m.pending = 0
+	m.held = map[string]bool{}
 }
 
 func (m *mon) release(fail bool) {
@@ -201,14 +202,17 @@ func (m *mon) release(fail bool) {
 	m.cond.Broadcast()
 }
 
-// waitPending blocks until n requests are held at the gate (= that many GC loops are blocked inside an inspect).
+// waitBoth blocks until the sentinel inspect of BOTH loops is held at the gate. While a hold is on, every other
+// scripted inspect is refused at once, so each loop runs to the end of its pass (acting on whatever answer it had
+// received before) and then blocks in its sentinel inspect. Loops are identified by their sentinel id, never by
+// counting requests: cleanupVeth is a third source of inspects whenever some v-h* link exists on the host.
 // mu must be held. Returns false when the watchdog fires.
-func (m *mon) waitPending(n int, what string) bool {
-	deadline := time.Now().Add(15 * time.Second)
-	for m.pending < n {
+func (m *mon) waitBoth(what string) bool {
+	deadline := time.Now().Add(30 * time.Second)
+	for !(m.held["ip"] && m.held["gc"]) {
 		if time.Now().After(deadline) {
-			m.inconcl = append(m.inconcl, fmt.Sprintf("%s: watchdog: only %d of %d GC loops reached the runtime within 15s (%s)",
-				m.caseID(), m.pending, n, what))
+			m.inconcl = append(m.inconcl, fmt.Sprintf("%s: watchdog: sentinel inspects held after 30s: ip=%v gc=%v (%s)",
+				m.caseID(), m.held["ip"], m.held["gc"], what))
 			return false
 		}
 		m.cond.Wait()
@@ -222,6 +226,14 @@ func (m *mon) enter(id string) (st step, label string, fail bool) {
 	m.mu.Lock()
 	defer m.mu.Unlock()
 	m.lastActivity = time.Now()
+	if m.ctr[id] == nil {
+		// not a container of this population: an inspect of cleanupVeth for a v-h* link some other process left on
+		// the host. Answered with an error (the link is kept), never held, never part of any round/outage logic.
+		m.seq++
+		m.ev("inspect", id, "unscripted", false)
+		m.run.Count("inspects_"+m.p.Mode+"_unscripted", 1)
+		return step{Class: "unscripted"}, "unscripted", false
+	}
 	for {
 		if m.closed {
 			m.seq++
@@ -229,8 +241,15 @@ func (m *mon) enter(id string) (st step, label string, fail bool) {
 			return step{}, "after-end-dropped", true
 		}
 		if m.hold {
+			l := loopOfSentinel(id)
+			if l == "" {
+				m.seq++
+				m.ev("inspect", id, "outage-refused", false)
+				m.run.Count("inspects_"+m.p.Mode+"_outage-refused", 1)
+				return step{}, "outage-refused", true
+			}
 			gen := m.holdGen
-			m.pending++
+			m.held[l] = true
 			m.cond.Broadcast()
 			for m.hold && m.holdGen == gen {
 				m.cond.Wait()
@@ -260,6 +279,8 @@ func (m *mon) enter(id string) (st step, label string, fail bool) {
 			return step{}, "outage-refused", true
 		}
 		if m.p.Outage.Kind != "none" && m.outageState == 0 && !m.finished && m.seq+1 >= m.p.Outage.At {
+			// from this request on nothing is answered any more; the outage window that is monitored (S0..S1)
+			// starts once both loops are provably blocked
 			m.outageState = 1
 			m.outagePos = m.seq + 1
 			m.dirty["ip"], m.dirty["gc"] = true, true
@@ -275,11 +296,6 @@ func (m *mon) enter(id string) (st step, label string, fail bool) {
 		m.roundEnd(l, q)
 	}
 	cs := m.ctr[id]
-	if cs == nil {
-		m.ev("inspect", id, "unscripted", false)
-		m.run.Count("inspects_"+m.p.Mode+"_unscripted", 1)
-		return step{Class: "unscripted"}, "unscripted", false
-	}
 	idx := cs.n
 	if idx >= len(cs.spec.Script) {
 		idx = len(cs.spec.Script) - 1
@@ -361,7 +377,7 @@ func (m *mon) callback(id string) {
 	}
 	if m.s0Taken && m.outageState == 1 {
 		m.violate("cleanport-called-during-runtime-outage-"+m.p.Outage.Kind, fmt.Sprintf("clean-port callback for %s at seq %d "+
-			"while the runtime was unreachable (both loops were blocked in an inspect when the outage began)", id, m.seq), id, nil)
+			"while the runtime was unreachable (nothing was answered since inspect #%d and both loops' sentinel inspects were held, i.e. both loops had acted on every earlier answer, at seq %d)", id, m.seq, m.outagePos, m.s0Seq), id, nil)
 	}
 }
 
@@ -402,8 +418,9 @@ func (m *mon) snapshot(loop, phase string) {
 		switch {
 		case phase == "outage-end":
 			m.violate("removed-during-runtime-outage-"+m.p.Outage.Kind+":"+f.Kind, fmt.Sprintf("%s %s was removed while the "+
-				"container runtime could not be asked (outage %q began at inspect #%d with every GC loop blocked in an inspect; "+
-				"no answer was served until the poll at seq %d)", f.Kind, f.Path, m.p.Outage.Kind, m.outagePos, m.seq), f.ID, f)
+				"container runtime could not be asked (outage %q: nothing answered from inspect #%d on; both loops' sentinel inspects "+
+				"were held at seq %d, the file was still there then; gone at the poll at seq %d)", f.Kind, f.Path, m.p.Outage.Kind,
+				m.outagePos, m.s0Seq, m.seq), f.ID, f)
 		case phase == "post":
 			m.violate("removed-after-runtime-gone:"+f.Kind, fmt.Sprintf("%s %s was removed after the final poll although the "+
 				"runtime answered nothing any more", f.Kind, f.Path), f.ID, f)
@@ -487,10 +504,11 @@ func (m *mon) roundEnd(l string, q int) {
 
 func (m *mon) outageBegin() {
 	m.mu.Lock()
-	ok := m.waitPending(2, "outage begin")
+	ok := m.waitBoth("outage begin")
 	m.quiesceOK = ok
 	m.snapshot("", "outage-begin")
 	m.s0Taken = ok
+	m.s0Seq = m.seq
 	m.ev("outage", "", "begin:"+m.p.Outage.Kind, false)
 	if m.p.Outage.Kind == "reset" {
 		m.refusing = true
@@ -523,7 +541,7 @@ func (m *mon) outageBegin() {
 func (m *mon) outageEnd() {
 	m.mu.Lock()
 	defer m.mu.Unlock()
-	ok := m.waitPending(2, "outage end")
+	ok := m.waitBoth("outage end")
 	if ok && m.s0Taken {
 		m.snapshot("", "outage-end")
 		m.run.Count("outage_windows_exercised_"+m.p.Mode+"_"+m.p.Outage.Kind, 1)
@@ -579,7 +597,7 @@ func (m *mon) finalPoll() (quiesced bool) {
 		return false
 	}
 	m.beginHold()
-	ok := m.waitPending(2, "final poll")
+	ok := m.waitBoth("final poll")
 	m.snapshot("", "final")
 	return ok
 }
